@@ -595,7 +595,7 @@ func specs() map[string][]variant {
 	}}}
 	m["DocumentService.DeleteIndex"] = []variant{{name: "write", need: lvRW, scope: "sel", build: func(e *env, p *principal, c *cred, ch chooser) call {
 		name := e.sacrificial("dxfld", p.sel, func(ctx context.Context, name string) error {
-			if _, err := e.x.dc.AddField(ctx, &protomodel.AddFieldRequest{CollectionName: seedColl, Field: &protomodel.Field{Name: name, Type: protomodel.FieldType_INTEGER}}); err != nil {
+			if _, err := e.x.dc.AddField(ctx, &protomodel.AddFieldRequest{CollectionName: seedColl, Field: &protomodel.Field{Name: name, Type: protomodel.FieldType_INTEGER}}); err != nil && !strings.Contains(err.Error(), "already exists") {
 				return err
 			}
 			_, err := e.x.dc.CreateIndex(ctx, &protomodel.CreateIndexRequest{CollectionName: seedColl, Fields: []string{name}})
